@@ -55,6 +55,9 @@ type StreamDef struct {
 	VOD        bool          `json:"vod"`        // EXT-X-PLAYLIST-TYPE:VOD (client starts at the first segment)
 	BaseSec    int64         `json:"base_sec"`   // fMP4: base time of the stream in seconds (scaled per track)
 	BaseTicks  int64         `json:"base_ticks"` // additional base in leading-track ticks (fMP4) / raw 33-bit start (MPEG-TS)
+	// MuxedRendition: the multivariant playlist also lists an audio rendition without URI (its
+	// media is the variant's own audio, RFC 8216 4.3.4.1); it adds nothing to fetch
+	MuxedRendition bool `json:"muxed_rendition,omitempty"`
 }
 
 // ExpUnit is a unit the client must deliver (before time normalisation).
@@ -565,9 +568,12 @@ func MultivariantText(b *Built) string {
 		}
 		fmt.Fprintf(&s, ",AUTOSELECT=YES,URI=\"rend%d.m3u8\"\n", i)
 	}
+	if b.Def.MuxedRendition {
+		s.WriteString("#EXT-X-MEDIA:TYPE=AUDIO,GROUP-ID=\"aud\",NAME=\"muxed\",AUTOSELECT=YES\n")
+	}
 	codecs := "avc1.42c028,mp4a.40.2"
 	s.WriteString("\n#EXT-X-STREAM-INF:BANDWIDTH=100000,CODECS=\"" + codecs + "\"")
-	if len(b.Renditions) > 0 {
+	if len(b.Renditions) > 0 || b.Def.MuxedRendition {
 		s.WriteString(",AUDIO=\"aud\"")
 	}
 	s.WriteString("\nlead.m3u8\n")
